@@ -973,9 +973,12 @@ func (r *Resolvable) printExtensions(ctx context.Context, fetchTree *FetchTreeNo
 				r.printBytes(comma)
 			}
 			counter++
-			r.printBytes(quote)
-			r.printBytes([]byte(key))
-			r.printBytes(quote)
+			// the key comes from a subgraph response: it may need JSON escaping
+			keyJSON, err := json.Marshal(key)
+			if err != nil {
+				return err
+			}
+			r.printBytes(keyJSON)
 			r.printBytes(colon)
 			r.printNode(value)
 
